@@ -372,7 +372,7 @@ Qed.
 Lemma do_import_eq : forall q L h self dir A i,
   do_import q L h self dir A i =
   if negb (i_root i) && ((0 <? fst (cleaned i))%nat || starts_dotdot (hd [] (snd (cleaned i)))) then Err
-  else if i_root i && match snd (cleaned i) with [] => true | _ => false end then Err
+  else if match snd (cleaned i) with [] => true | _ => false end then Err
   else if i_root i then
     match find_root L dir with
     | None => Err
@@ -400,14 +400,11 @@ Proof. reflexivity. Qed.
 Lemma comp_S : forall q L h k d imps A, comp q L h (S k) d imps A = comp_list q L h (comp q L h k) d imps A.
 Proof. reflexivity. Qed.
 
-Lemma wf_import_parts : forall i, wf_import i = true ->
-  forallb slashfree (i_segs i) = true /\ snd (cleaned i) <> [].
+Lemma wf_import_parts : forall i, wf_import i = true -> forallb slashfree (i_segs i) = true.
 Proof.
   unfold wf_import. intros i H.
   apply andb_true_iff in H. destruct H as [H _].
-  apply andb_true_iff in H. destruct H as [H _].
-  apply andb_true_iff in H. destruct H as [H1 H2].
-  split; auto. destruct (snd (cleaned i)); [discriminate | congruence].
+  apply andb_true_iff in H. destruct H as [H _]. exact H.
 Qed.
 
 Definition fst_res {X Y : Type} (r : res (X * Y)) : res X :=
@@ -512,12 +509,13 @@ Section Sim.
     forall B, inv B -> ext A' B -> do_import q B None (comp q B None k) (P ++ r) [] i = Ok (t, []).
   Proof.
     intros k IH r i A t A' Hr IA Hw H.
-    destruct (wf_import_parts i Hw) as [Hsl Hne].
+    pose proof (wf_import_parts i Hw) as Hsl.
     pose proof (cleaned_names i Hsl) as Nrr.
     rewrite do_import_eq in H.
     set (rr := snd (cleaned i)) in *.
     destruct (negb (i_root i) && ((0 <? fst (cleaned i))%nat || starts_dotdot (hd [] rr))) eqn:G1; [discriminate|].
-    destruct (i_root i && match rr with [] => true | _ => false end) eqn:G2; [discriminate|].
+    destruct (match rr with [] => true | _ => false end) eqn:G2; [discriminate|].
+    assert (Hne : rr <> []) by (destruct rr; [discriminate | congruence]).
     destruct (i_root i) eqn:Er.
     - destruct (find_root L (R ++ r)) as [root|] eqn:Ef; [|discriminate].
       destruct (Hwithin _ _ Ef) as (x' & Ex & Eroot). subst root.
@@ -654,7 +652,7 @@ Section Hook.
   Proof.
     intros s1 s2 H d i A A0. rewrite !do_import_eq.
     destruct (negb (i_root i) && _); [reflexivity|].
-    destruct (i_root i && _); [reflexivity|].
+    destruct (match snd (cleaned i) with [] => true | _ => false end); [reflexivity|].
     destruct (i_root i).
     - destruct (find_root L d) as [root|] eqn:Ef; [|reflexivity].
       apply find_root_has in Ef. unfold has_gomod, mem in Ef.
